@@ -389,6 +389,13 @@ impl LogInnerManager {
             self.index_file
                 .seek(SeekFrom::Start(self.index_cursor))
                 .await?;
+            // clear every removed index entry, not only the first two bytes
+            self.index_file
+                .write_all(&vec![0u8; file_index_len as usize])
+                .await?;
+            self.index_file
+                .seek(SeekFrom::Start(self.index_cursor))
+                .await?;
             self.index_file.write_all(&empty_data).await?;
             self.index_file
                 .seek(SeekFrom::Start(self.index_cursor))
@@ -403,9 +410,22 @@ impl LogInnerManager {
             current_index_count,
         )
         .await?;
+        let old_data_cursor = self.data_cursor;
         self.data_cursor = data_cursor;
         self.msg_count = msg_count;
         self.current_index_count = current_index_count as u16;
+        self.data_file
+            .seek(SeekFrom::Start(self.data_cursor))
+            .await?;
+        // clear the whole removed suffix: bytes of removed records must never be
+        // parsed again after a shorter re-append or a reopen
+        let mut remain = old_data_cursor.saturating_sub(self.data_cursor);
+        let zero_buf = vec![0u8; 64 * 1024];
+        while remain > 0 {
+            let n = std::cmp::min(remain, zero_buf.len() as u64) as usize;
+            self.data_file.write_all(&zero_buf[..n]).await?;
+            remain -= n as u64;
+        }
         self.data_file
             .seek(SeekFrom::Start(self.data_cursor))
             .await?;
